@@ -196,6 +196,12 @@ theorem step_stable (w : World) (op : Op σ) :
       exact ⟨this.2.1, fun x e hx => by simp only; rw [this.2.2]; exact hx⟩
     · exact ⟨rfl, fun _ _ hx => hx⟩
   | setTime now => exact ⟨rfl, fun _ _ hx => hx⟩
+  | upgrade auths =>
+    obtain ⟨b, hb⟩ := step_upgrade_fst H V w auths
+    rw [hb]; exact ⟨rfl, fun _ _ hx => hx⟩
+  | migrate auths =>
+    obtain ⟨b, hb⟩ := step_migrate_fst H V w auths
+    rw [hb]; exact ⟨rfl, fun _ _ hx => hx⟩
 
 
 /-- For a set installed at epoch `e` and a proof whose signatures are otherwise fine, the proof check
@@ -344,6 +350,12 @@ theorem step_epoch (w : World) (op : Op σ) :
       exact this.1
     · simp [rotations]
   | setTime now => simp [step, rotations]
+  | upgrade auths =>
+    obtain ⟨b, hb⟩ := step_upgrade_fst H V w auths
+    rw [hb]; simp [rotations]
+  | migrate auths =>
+    obtain ⟨b, hb⟩ := step_migrate_fst H V w auths
+    rw [hb]; simp [rotations]
 
 /-- history form: the epoch after any history is the old epoch plus the number of successful rotations … -/
 theorem epoch_after_history (w : World) (ops : List (Op σ)) :
